@@ -33,7 +33,20 @@ func (r *Run) condShapesRec(fd *FuncDecl, out map[string]int, seen map[*FuncDecl
 			if t := u.Info.TypeOf(cond); t == nil || !isBoolType(t) {
 				return
 			}
-			for _, lf := range u.kLeaves(cond, 0) {
+			ls := u.kLeaves(cond, 0)
+			// `len(xs) > 0 && slices.ContainsFunc(xs, …)`: the length test in front of an element predicate is vacuous
+			var ranged []ast.Expr
+			for _, lf := range ls {
+				if body, xs, _, _ := u.elemPredicate(lf); body != nil {
+					ranged = append(ranged, xs)
+				} else if c, ok := ast.Unparen(lf).(*ast.CallExpr); ok && isSlicesContains(u.Info, c) {
+					ranged = append(ranged, c.Args[0])
+				}
+			}
+			for _, lf := range ls {
+				if len(ranged) > 0 && lenTestOf(u.Info, lf, ranged) {
+					continue
+				}
 				if sh, ok := u.kLeafShape(lf); ok {
 					out[sh] = 1
 				}
@@ -398,4 +411,26 @@ func (u *Unit) definingCall(e ast.Expr) *ast.CallExpr {
 	}
 	c, _ := ast.Unparen(ds[0].rhs).(*ast.CallExpr)
 	return c
+}
+
+// lenTestOf: e compares len(x) for one of the given expressions x.
+func lenTestOf(info *types.Info, e ast.Expr, xs []ast.Expr) bool {
+	be, ok := ast.Unparen(e).(*ast.BinaryExpr)
+	if !ok {
+		return false
+	}
+	for _, side := range []ast.Expr{be.X, be.Y} {
+		if c, ok := ast.Unparen(side).(*ast.CallExpr); ok && len(c.Args) == 1 {
+			if id, ok := ast.Unparen(c.Fun).(*ast.Ident); ok {
+				if b, ok := info.Uses[id].(*types.Builtin); ok && b.Name() == "len" {
+					for _, x := range xs {
+						if sameExpr(c.Args[0], x) {
+							return true
+						}
+					}
+				}
+			}
+		}
+	}
+	return false
 }
